@@ -284,6 +284,10 @@ def run_C10(tier, seed):
     sv, _ = stages.pick_scenarios("recover", tier, seed, lambda s: s["expect"]["verify"] == "ok" and s["sc"]["mode"] == "RecoverAndVerify" and nm_of(s) <= 16
                                   and any(m["v"]["seed"] != 0 and m["v"]["seed"] != m["seed"] for m in s["sc"]["members"]), 10 if q else 100, prop="C10")
     res.append(stages.trace_stage("C10", "wrong-seed", sv, seed, module="TraceVerify", calls="verify"))
+    # RecoverOnly: no final check, but every returned mask must solve the same recovery equation
+    ro, _ = stages.pick_scenarios("recover", tier, seed, lambda s: s["expect"]["verify"] == "ok" and s["sc"]["mode"] == "RecoverOnly" and nm_of(s) <= 16
+                                  and any(m["v"]["seed"] != 0 for m in s["sc"]["members"]), 10 if q else 100, prop="C10")
+    res.append(stages.trace_stage("C10", "recover-only", ro, seed, module="TraceVerify", calls="verify"))
     return res
 
 
